@@ -1,4 +1,5 @@
 import ScnrVerif.Proofs.Equiv
+import ScnrVerif.Proofs.CompileCorrect
 /-!
 # C02 — the compiled automaton accepts exactly the pattern languages, for every string
 
@@ -94,5 +95,48 @@ def exV : List (List Nat × List (Nat × Re)) :=
 example : closedCheck (dfaSys exA (cmT exT)) (reSys (cmT exT)) (mkReps (exT ++ exT)) [0] (normP exPs)
     false exV = true := by decide
 example : exV.length = 4 := by decide
+
+/-! ## Track A: the compiler model is correct for **every** pattern list
+
+`Model/Compile.lean` mirrors the Rust compiler (Thompson construction with its state numbering,
+multi-pattern NFA, closure construction, minimizer); on every run the driver checks that it
+reproduces the real automata exactly. The theorems below need no per-program check. -/
+
+/-- the Thompson NFA of a pattern AST accepts exactly the words the pattern matches -/
+theorem thompson_language (a : CAst) (cm : Nat → Nat → Bool) (w : List Nat) :
+    (thompson a).Accepts cm w ↔ Matches cm a.toRe w := thompson_correct a cm w
+
+/-- the closure construction (one state per ε-closure of an NFA state) preserves the languages:
+    for every well-formed multi-pattern NFA, every word, every terminal -/
+theorem closure_construction_correct (m : MNfa) (hm : MWF m) (prio : List Nat) (cm : Nat → Nat → Bool)
+    (w : List Nat) (tid : Nat) :
+    acceptsTid (buildDfa m prio) cm w tid ↔ w ≠ [] ∧ ∃ p ∈ m, p.1 = tid ∧ p.2.Accepts cm w :=
+  buildDfa_correct hm prio cm w tid
+
+/-- **the compiled automaton of a mode** (Thompson, closure construction, minimizer) accepts a word
+    for a terminal iff the word is not empty and a pattern with that terminal matches it — for every
+    list of patterns, every class function, every word, every terminal -/
+theorem compiler_model_correct (ps : List (Nat × CAst)) (cm : Nat → Nat → Bool) (w : List Nat) (tid : Nat) :
+    acceptsTid (compileMode ps) cm w tid ↔ w ≠ [] ∧ ∃ q ∈ ps, q.1 = tid ∧ Matches cm q.2.toRe w :=
+  compileMode_correct ps cm w tid
+
+/-- **lookahead automata** -/
+theorem lookahead_model_correct (a : CAst) (cm : Nat → Nat → Bool) (w : List Nat) (t : Nat) :
+    acceptsTid (minimize (compileLaPre a)) cm w t ↔ w ≠ [] ∧ t = 0 ∧ Matches cm a.toRe w :=
+  compileLa_correct a cm w t
+
+/-- the empty string is never accepted by the model's automata -/
+theorem model_rejects_empty (ps : List (Nat × CAst)) (cm : Nat → Nat → Bool) (tid : Nat) :
+    ¬ acceptsTid (compileMode ps) cm [] tid := by
+  rw [compileMode_correct]; simp
+
+/-- instance: `ab|a+` style pattern list, word "aab" is accepted for terminal 1 only if matched -/
+example : acceptsTid (compileMode [(0, .concat [.leaf 0, .leaf 1]), (1, .plus (.leaf 0))])
+    (fun cls c => (cls == 0 && c == 97) || (cls == 1 && c == 98)) [97, 97] 1 := by
+  rw [compileMode_correct]
+  refine ⟨by simp, (1, .plus (.leaf 0)), by simp, rfl, ?_⟩
+  show Matches _ (.cat (.cls 0) (.star (.cls 0))) [97, 97]
+  exact (Matches.cat (u := [97]) (v := [97]) (.cls (by decide))
+    ((List.append_nil [97]) ▸ Matches.starCons (u := [97]) (v := []) (.cls (by decide)) .starNil))
 
 end Scnr.C02
